@@ -122,6 +122,7 @@ type Exec struct {
 	intMode     bool
 	maxGap      int             // most instructions executed between two signs of progress
 	progressAt  int             // e.steps at the last sign of progress (see livelock)
+	goTimers    map[*Value]*goTimer // time.Timer structs made by NewTimer / AfterFunc
 	blsInvalid  map[string]bool // public key bytes the harness declared undecodable
 	blsVerifies []*Term         // results of the BLS signature verifications made on this path (symbolic)
 	bigHuge     int             // big.Int values outside the modelled range met so far
